@@ -600,10 +600,83 @@ var chkSilence = harness.Define("whole-reply-then-silence",
 		return c
 	}, runSilence)
 
+// agedFaultCase: the same faults on a client that has been in use for a long time: one Client value makes N calls; most are answered
+// normally (and must succeed), every Every-th call meets one of the faults below and is judged like any other fault case - the
+// 3rd call like the 5940th.
+type agedFaultCase struct {
+	Kind   string      `json:"kind"`
+	N      int         `json:"n"`
+	Every  int         `json:"every"`
+	Seed   uint64      `json:"seed"`
+	MaxQty int         `json:"max_qty"`
+	Faults []faultCase `json:"faults"`
+}
+
+// immediateFaults end a call without any waiting.
+var immediateFaults = []string{"eof", "eof-with-bytes", "ioerr", "ioerr-with-bytes", "ioerr-timeout-typed", "oversize", "oversize-frame", "oversize", "oversize-frame"}
+
+func runAgedFault(c agedFaultCase) harness.Result {
+	if len(c.Faults) == 0 || c.Every < 2 {
+		return harness.Result{}
+	}
+	f := cli.FramingOf(c.Kind)
+	sess, err := cli.NewSession(c.Kind, 300, false)
+	if err != nil {
+		return harness.Fail("harness: %v", err)
+	}
+	defer sess.Close()
+	dev := device.New(c.Seed)
+	s := c.Seed
+	probes := 0
+	for i := 0; i < c.N; i++ {
+		where := fmt.Sprintf("call #%d on one long-lived %s client", i+1, c.Kind)
+		if i%c.Every == c.Every-1 {
+			fc := c.Faults[probes%len(c.Faults)]
+			probes++
+			fc.Kind = c.Kind
+			p, err := prepare(fc)
+			if err != nil {
+				return harness.Fail("harness: %v", err)
+			}
+			o := sess.Call(fc.Req, p.sc.Stream, p.sc.Events)
+			if r := judge(fc, p, o); r.Err != nil {
+				return harness.Fail("%s: %v; this call: %+v", where, r.Err, fc)
+			}
+			continue
+		}
+		v := harness.SplitMix64(&s)
+		r := spec.Req{FC: 3, Unit: uint8(v >> 8), Tx: uint16(v >> 16), Addr: uint16(v>>32) & 0x7FFF, Qty: 1 + uint16((v>>48)%uint64(c.MaxQty))}
+		frame := dev.Answer(f, spec.EncodeRequest(f, r))
+		o := sess.Call(r, frame, []xport.Event{{Kind: "data", N: len(frame)}, {Kind: "ioerr"}})
+		if o.Panic != nil || o.Hung || o.Err != nil || !bytes.Equal(respBytes(o), frame) {
+			return harness.Fail("%s: ordinary exchange (reply %x in one read): panic=%v hung=%v err=%v response=%x", where, frame, o.Panic, o.Hung, o.Err, respBytes(o))
+		}
+	}
+	return harness.Result{NonTrivial: probes >= 10, Labels: []string{"kind:" + c.Kind, fmt.Sprintf("calls-on-one-client:%d", c.N)}, Weight: int64(probes)}
+}
+
+var chkAgedFault = harness.Define("transport-fault-long-lived-client",
+	func(t *rapid.T) agedFaultCase {
+		c := agedFaultCase{Kind: rapid.SampledFrom([]string{cli.TCP, cli.RTUNet}).Draw(t, "kind"), N: rapid.SampledFrom([]int{600, 6500, 13000}).Draw(t, "n"),
+			Every: rapid.SampledFrom([]int{2, 3, 5, 7}).Draw(t, "every"), Seed: rapid.Uint64().Draw(t, "seed"), MaxQty: rapid.SampledFrom([]int{1, 11, 125}).Draw(t, "max_qty")}
+		k := rapid.IntRange(2, 12).Draw(t, "nfaults")
+		for len(c.Faults) < k {
+			fc := genFault(t, []string{c.Kind})
+			fc.Fault = rapid.SampledFrom(immediateFaults).Draw(t, "immediate_fault")
+			fc.Prior, fc.PriorShape, fc.PriorRepeat, fc.Address, fc.WithCause = "", "", 0, "", false
+			if fc.Fault == "oversize-frame" && fc.Over == 0 {
+				fc.Over = rapid.SampledFrom([]int{1, 2, 5, 12}).Draw(t, "over")
+			}
+			c.Faults = append(c.Faults, fc)
+		}
+		return c
+	}, runAgedFault)
+
 func TestRandom(t *testing.T) {
 	chkFault.Rapid(t, harness.Pick(1500, 40000))
 	chkSerial.Rapid(t, harness.Pick(4, 80))
 	chkSilence.Rapid(t, harness.Pick(400, 8000))
+	chkAgedFault.Rapid(t, harness.Pick(6, 60))
 }
 
 // TestPrefixSweep: every prefix x every fault kind for every function x framing x reply sizes (network clients).
